@@ -5,6 +5,8 @@ answer  : OK | c=.. | d=.. | l=.. | f=.. | u=.. | m=..   or   ERR <kind> ..   or
 -/
 import Driver.L1
 import Emu8086.Model.Asm
+import Emu8086.Model.Norm
+import Emu8086.Model.ILex
 
 namespace Driver
 open Emu8086 Emu8086.Asm
@@ -72,6 +74,21 @@ def handleL3 (req ans : String) : Verdict :=
       -- the driver reports a model disagreement iff `model != ans`: give back `ans` itself when the
       -- comparison rule accepts it
       { model := if ok then ans else m, specOk := true, spec := "-", nontrivial := ans.startsWith "OK" && src.length > 10 }
+  | ["opnd", e, eexp] =>
+    match pctDecode e, pctDecode eexp with
+    | some src, some expLine =>
+      let (m, ok) := asmVerdict src ans
+      -- independent reader (C04): the one emitted code line, read by the interpreter model, must be
+      -- the instruction the generator built the source from (given in interpreter syntax), up to
+      -- writing the default segment out (`Instr.norm`, `Props.C04.exec_norm`)
+      let c := ((ans.splitOn " | ").find? (·.startsWith "c=")).getD "c=-"
+      let lines := if c == "c=-" then [] else ((c.drop 2).toString.splitOn ";").filterMap pctDecode
+      let specOk := match lines, parseLine expLine with
+        | [l], some ie => (match parseLine l with | some ii => decide (ii.norm = ie.norm) | none => false)
+        | _, _ => false
+      { model := if ok then ans else m, specOk := specOk,
+        spec := s!"accepted, and the emitted line means `{expLine}` (same instruction, same operand parts, same effective segment)", nontrivial := true }
+    | _, _ => bad
   | ["asm2", e1, e2, expV] =>
     match pctDecode e1, pctDecode e2, ans.splitOn " || " with
     | some s1, some s2, [a1, a2] =>
